@@ -1178,6 +1178,15 @@ func Run(c *ev.Ctx) int {
 			aliasedNameLane(c, sc)
 		}(sc)
 	}
+	for _, sc := range []bool{false, true} {
+		for _, how := range []string{"preexisting", "interrupted-create"} {
+			wg.Add(1)
+			go func(sc bool, how string) {
+				defer wg.Done()
+				unclaimedDirLane(c, sc, how)
+			}(sc, how)
+		}
+	}
 	for _, cc := range []string{"cache-default", "cache-disabled"} {
 		wg.Add(1)
 		go func(cc string) {
